@@ -143,6 +143,7 @@ impl<'t> Worker<'t> {
         if self.sent.chars().is_empty() {
             return;
         }
+        self.top_nodes.clear();
         self.tokenizer
             .verif_build_lattice_inner(&self.sent, &mut self.lattice, connector);
         self.lattice.append_top_nodes(&mut self.top_nodes);
